@@ -216,6 +216,8 @@ where
     // Track spawned hedge tasks
     let mut hedges_spawned: usize = 0;
     let mut primary_error: Option<S::Error> = None;
+    // Attempts whose error has been received so far (latency mode)
+    let mut failed_attempts: usize = 0;
 
     // Get delay for first hedge
     let first_delay = config.delay.get_delay(1);
@@ -256,12 +258,16 @@ where
                                 }
                                 Err(e) => {
                                     // Store error, continue waiting for other attempts
+                                    failed_attempts += 1;
                                     if attempt == 0 {
                                         primary_error = Some(e.clone());
                                     }
-                                    // Check if all attempts exhausted
-                                    if hedges_spawned + 1 >= max_attempts {
-                                        // All spawned, check if this was the last result
+                                    // Give up only when every attempt has been started
+                                    // and every one of them has failed; attempts that are
+                                    // still running may yet succeed.
+                                    if hedges_spawned + 1 >= max_attempts
+                                        && failed_attempts >= max_attempts
+                                    {
                                         config.listeners.emit(&HedgeEvent::AllFailed {
                                             name: config.name.clone(),
                                             attempts: hedges_spawned + 1,
